@@ -25,7 +25,8 @@ RULE = ("~75 scalable families f(k): k-fold repetition of each declaration/state
         "struct nesting, type names inside array bounds inside type names for cast/sizeof/compound literal/_Alignas/"
         "_Atomic), pairwise compositions of the recursive constructs, prefixes of the three benchmark files at doubling "
         "sizes; 30 adversarial literal families for the lexer's regular expressions. k = 8..512 (quick) / 8..1024 "
-        "(thorough). Violation: two consecutive doublings with step ratio > 2.6 (sizes with >= 3000 steps), a step "
+        "(thorough). Violation: two consecutive doublings with step ratio > 2.6 (sizes with >= 3000 steps), or three consecutive "
+        "ratios strictly increasing, all > 2.05 and the last > 2.3 (a quadratic term with a small constant), a step "
         "budget of 400 steps per input character exceeded, or for lexer families an input of <= 8000 characters "
         "taking > 10 s user CPU when run alone (min of 3; today's worst: 0.18 s), 65536 characters taking > 40 s (today's worst: 1.5 s), or a "
         "lexer shard that hangs and whose marked case burns > 45 s CPU alone. Non-trivial: every (family, k) measurement; distinct by construction.")
@@ -193,6 +194,35 @@ FAMILIES.update({
     "nest-ternary-both": lambda k: fdef("a = " + "(a ? a : " * k + "a" + ")" * k + ";"),
     "nest-param-2funcs": lambda k: "void g(int z, " + "void (*f)(int y, " * k + "int" + ")" * k + ");",
 })
+FAMILIES.update({
+    # ---- recursion through the LEFT operand / the base of a postfix expression (via parentheses)
+    "nest-assign-lhs-paren": lambda k: fdef("(" * k + "a" + " = 1)" * k + ";"),
+    "nest-assign-to-conditional": lambda k: fdef("((" * k + "a" + ") ? a : a) = 1" * k + ";"),
+    "nest-assign-to-binary": lambda k: fdef("((" * k + "a" + ") + a) = 1" * k + ";"),
+    "nest-compound-assign-lhs": lambda k: fdef("(" * k + "a" + " += 1)" * k + ";"),
+    "nest-call-callee": lambda k: fdef("(" * k + "g" + ")(a)" * k + ";"),
+    "nest-subscript-base": lambda k: fdef("(" * k + "p" + ")[1]" * k + ";"),
+    "nest-member-base": lambda k: fdef("(" * k + "a" + ").m" * k + ";"),
+    "nest-arrow-base": lambda k: fdef("(" * k + "p" + ")->m" * k + ";"),
+    "nest-postinc-base": lambda k: fdef("(" * k + "a" + ")++" * k + ";"),
+    "nest-ternary-cond": lambda k: fdef("a = " + "(" * k + "a" + " ? a : a)" * k + ";"),
+    "nest-comma-left": lambda k: fdef("(" * k + "a" + ", a)" * k + ";"),
+    "nest-binary-left": lambda k: fdef("a = " + "(" * k + "a" + " + a)" * k + ";"),
+    "nest-unary-of-assign": lambda k: fdef("a = " + "-(a = " * k + "a" + ")" * k + ";"),
+    "nest-cast-of-assign": lambda k: fdef("a = " + "(int)(a = " * k + "a" + ")" * k + ";"),
+    "nest-sizeof-of-assign": lambda k: fdef("a = " + "sizeof(a = " * k + "a" + ")" * k + ";"),
+    # ---- repetition of constructs after which the parser has to look one token ahead (else-less if before '}' ...)
+    "rep-block-for-if": lambda k: fdef("{ for (int i = 0; i < 4; i++) if (a) a = i; } " * k),
+    "rep-block-if": lambda k: fdef("{ if (a) a = 1; } " * k),
+    "rep-block-while-if": lambda k: fdef("{ while (a) if (a) a = 1; } " * k),
+    "rep-func-for-if": lambda k: "".join(f"void g{i}(int a) {{ for (int i = 0; i < 4; i++) if (a) a = i; }} " for i in range(k)),
+    "rep-func-if": lambda k: "".join(f"void g{i}(int a) {{ if (a) a = 1; }} " for i in range(k)),
+    "rep-for-decl-flat": lambda k: fdef("for (int i = 0; i < 4; i++) if (a) a = i; " * k),
+    "rep-struct-then-ident": lambda k: "struct S { int a; }; " * 1 + "".join(f"struct S{i} {{ int m; }} v{i}; " for i in range(k)),
+    "rep-switch-blocks": lambda k: fdef("switch (a) { case 1: if (a) a = 1; } " * k),
+    "rep-do-while": lambda k: fdef("do if (a) a = 1; while (a); " * k),
+    "rep-label-if": lambda k: fdef("".join(f"L{i}: if (a) a = 1; " for i in range(k))),
+})
 FAMILIES["nest-funcptr-through-params"] = _through_params
 FAMILIES["nest-func-param-chain"] = _param_chain
 FAMILIES["nest-abstract-param-chain"] = _abstract_param_chain
@@ -264,6 +294,30 @@ def measure(steps, text, budget_per_char=400):
     return steps.n, o
 
 
+def _nest_depth(text, op, cl):
+    d = best = 0
+    for ch in text:
+        if ch == op:
+            d += 1
+            best = max(best, d)
+        elif ch == cl:
+            d -= 1
+    return best
+
+
+def _kf_trigger(by, fam, k):
+    """The open findings K46 / K47 are about ONE declarator with many derivations and about brace NESTING: the input itself
+    must have a declarator with >= k/2 derivations, resp. a brace depth >= k/2.  Families that repeat a bounded unit k
+    times never qualify, whatever function the excess is spent in."""
+    top = max(by, key=by.get)
+    text = fam(k)
+    if KF_FUNCS[top] == "K46":
+        # one declarator with at least k/2 derivations ('*', '[', '(' between two ';' / braces)
+        import re
+        return max(sum(seg.count(c) for c in "*[(") for seg in re.split(r"[;{}]", text)) >= k // 2
+    return _nest_depth(text, "{", "}") >= k // 2
+
+
 def judge_series(name, series, case_extra=None):
     """series: list of (k, length, steps, outcome_tag).  Returns violations."""
     vs = []
@@ -288,6 +342,20 @@ def judge_series(name, series, case_extra=None):
                 break
         else:
             bad = 0
+    if not vs:
+        # a quadratic term with a small constant: the normalised doubling ratio keeps climbing (for c1*k + c2*k*log k it
+        # falls towards 2): three consecutive ratios strictly increasing, all > 2.05, the last > 2.3
+        rs = []
+        for (k1, l1, s1), (k2, l2, s2) in zip(ok, ok[1:]):
+            if s1 >= 3000 and l1:
+                rs.append((k2, (s2 / s1) / (l2 / l1) * 2.0))
+        if len(rs) >= 3:
+            a, b, c = (x[1] for x in rs[-3:])
+            if a < b < c and a > 2.05 and c > 2.3:
+                vs.append({"kind": "super-linear-growth", "sig": name, "case": dict({"family": name}, **(case_extra or {})),
+                           "detail": {"rule": "three consecutive doubling ratios strictly increasing, all > 2.05, last > 2.3",
+                                      "last_ratios": [round(x, 3) for x in (a, b, c)], "at_k": rs[-1][0],
+                                      "series_k_len_steps": [(x, y, z) for x, y, z in ok]}})
     for k, ln, st, tag in series:
         if tag == "budget":
             vs.append({"kind": "step-budget-exceeded", "sig": name, "case": dict({"family": name, "k": k}, **(case_extra or {})),
@@ -374,7 +442,8 @@ def run_shard(spec):
                     cnt["families"] += 1
                     cnt["table"][name] = [(a, c) for a, b, c, d in series]
                     vs = judge_series(name, series)
-                    if vs and sum(a[2] - b[2] for a, b in zip(series, twin)) > 0 and not judge_series(name, twin):
+                    if vs and sum(a[2] - b[2] for a, b in zip(series, twin)) > 0 and not judge_series(name, twin) \
+                            and _kf_trigger(by, fam, series[-1][0]):
                         # K46 / K47: the whole excess consists of loop iterations inside CParser._type_modify_decl (the walk
                         # to the tail of the modifier chain, repeated per declarator level) or CParser._is_type_in_scope (the
                         # walk over all enclosing scopes, repeated per identifier); without them the series is linear
